@@ -1986,6 +1986,8 @@ pub fn exec(prop: &str, v: &serde_json::Value) -> Report {
     let mut rep = Report::default();
     rep.nontrivial = match prop {
         "C01" => get(c, "destructs") >= 1 && get(c, "rc_acquired_not_new") >= 1 && get(c, "switches") >= 2,
+        // (T10 is about disposal passes during which the epoch moves on: a case in which it did not is trivial)
+        "C02" if case.tmpl == "T10" => get(c, "max_epochs_elapsed_within_one_disposal_pass") >= 3,
         "C02" => get(c, "destruct_while_peer_holds_snapshot") >= 1 || get(c, "rounds_while_object_protected_only_by_peer_snapshot") >= 1,
         "C03" => get(c, "dealloc_after_weak_outlived_object") >= 1,
         "C04" => get(c, "objects") >= 3 && get(c, "destruct_cascade") >= 1 && get(c, "destruct_root") >= 1,
@@ -2008,6 +2010,9 @@ pub fn exec(prop: &str, v: &serde_json::Value) -> Report {
     }
     if get(c, "destructor_snapshots") > 0 {
         rep.label("api-use-inside-destructor");
+    }
+    if get(c, "max_epochs_elapsed_within_one_disposal_pass") >= 3 {
+        rep.label("epoch-advanced->=3-within-one-disposal-pass");
     }
     if get(c, "stalls_ge2_epochs") > 0 {
         rep.label("stall>=2epochs");
